@@ -179,7 +179,8 @@ package main
 //@   loop 1
 //@     invariant linesToDelete != nil
 //@     invariant [C08,C17] only-physical-lines-are-merged: forall n int {has(linesToDelete, n)} :: has(linesToDelete, n) ==> isPhysLine(tfile, n)
-//@     decreases fileLine(tfile, dr.End) - i
+//@     invariant [C08,C17] physLine(tfile, dr.Start) <= i && (dr.Start != 0 ==> isPhysLine(tfile, physLine(tfile, dr.Start)))
+//@     decreases physLine(tfile, dr.End) - i
 //@   loop 2
 //@     invariant linesToDelete != nil
 //@     invariant [C08,C17] only-physical-lines-are-merged: forall n int {has(linesToDelete, n)} :: has(linesToDelete, n) ==> isPhysLine(tfile, n)
